@@ -53,7 +53,11 @@ fn params_for(variant: u64) -> ChainParams {
     p
 }
 
-type Answers = BTreeMap<String, String>;
+pub type Answers = BTreeMap<String, String>;
+
+pub fn node_answers_pub<S: ChainStore>(store: &S, q: &Value) -> Answers {
+    node_answers(store, q)
+}
 
 /// The queries and the node's answers. `blocks`: (hash, is_main) of every model block;
 /// `txs`: main-chain tx hashes; `cells`: live out points; `main`: main chain hashes by number.
